@@ -15,7 +15,22 @@ Search   : breadth first over all event sequences up to the depth bound, from th
            => equal futures).  Levels below the depth bound are explored first (keys only, in shards()) so that each
            distinct state is expanded by exactly one shard; the shards then execute every transition out of their
            states with the complete oracle.
-Invariant: see _judge_transition / _check_state.
+Invariant (every transition / every state, see _transition and _check_state):
+  * a call the property promises to work (valid mesh into a free slot, set of own ids, new variable with existing
+    columns) must not raise;
+  * a call that raised leaves the dump of /VMAP/GEOMETRY and /VMAP/VARIABLES unchanged (empty state / geometry
+    container groups that a failed add_variable leaves behind hold no variable: counted, not judged - the repository's
+    own tests ask for the same, the property speaks of partial geometries and variables);
+  * a call that raised but changed the full key (exporter attribute, empty container) gives a new state; every event
+    out of it is executed twice, after the history with and without the failed call, and must have the same
+    outcome (status, exception type, file content) - this is what catches sticky flags;
+  * for every geometry: make_mesh().join_coordinates()[.join_variable()...].to_frame() == reference rows (elements by
+    id, node order inside an element as handed to the exporter), same index names, columns, coordinates and values
+    (exact ==, NaN == NaN); the same chain twice on one importer and once more on a second importer gives equal
+    frames; geometries()/states()/node_sets()/element_sets() list what was written; filter_node_set /
+    filter_element_set return exactly the member rows.
+  Counted only (property silent): stored element type codes (the importer never reads them), calls outside the
+  promise that are accepted, exporter attributes changed by a failed call at the last level.
 """
 import hashlib
 import math
@@ -32,8 +47,9 @@ LEVEL = "model_checking"
 RULE = ("all sequences of exporter events from the tier's menu up to the depth bound, from an empty file; one case = one "
         "history (distinct state x event); states = globally distinct canonical states of depth < bound, each expanded "
         "exactly once (distinct_outcomes = globally distinct canonical states of any depth incl. the last level); "
-        "non-trivial = history with >= 1 successful add_geometry whose last event either added content to a non-empty "
-        "file (2nd geometry, set, variable) or raised on a non-empty file")
+        "non-trivial = history whose last call acts on a file that already holds a geometry and either succeeds (2nd "
+        "geometry, set, variable: round trip of >= 2 items) or raises although the geometry it addresses exists "
+        "(duplicate, unsupported mesh, foreign id, bad column/location: something could be destroyed or left behind)")
 ASSUMPTIONS = [
     "the exporter is a deterministic function of (file content under /VMAP, its instance attributes, its class-level "
     "tables) - all three are part of the state key, so merging histories with equal key is sound",
@@ -464,7 +480,7 @@ def _transition(hist, eid, check_state=True, seen=None):
                     res["counters"]["failed call changed exporter attributes (judged through later outcomes)"] = 1
                 else:
                     res["counters"]["failed add_variable left an empty state/geometry container group (property silent)"] = 1
-            res["nontrivial"] = nonempty_before
+            res["nontrivial"] = nonempty_before and ev["slot"] in model.geom
         else:
             if not valid:
                 res["unjudged"] = True
